@@ -3,6 +3,8 @@ C03 — every change is a legal change: neighbours swap, nobody jumps, covers st
 -/
 import Wheatley.Lemmas.Gen
 import Wheatley.Lemmas.Places
+import Wheatley.Lemmas.Covers
+import Wheatley.Model.World
 namespace Wheatley.C03
 
 /-- `r'` is obtained from `r` by a legal change of the given stage. -/
@@ -87,5 +89,37 @@ example : Consistent 6 [1, 4] 1 ∧ Consistent 6 [1, 2, 3, 4] 1 ∧ ¬ Consisten
 example : ∃ g g' r c, mkDixon 6 none = some g ∧ g.Permuting ∧
     g.setSingle.next false = .ok g' r c ∧ r = [1, 2, 3, 4, 6, 5] := by
   refine ⟨(mkDixon 6 none).get (by decide), _, _, _, by simp, by decide, rfl, by decide⟩
+
+
+/-! ### System level: the covers, in every state of every run -/
+
+section System
+variable {K : Type} [Num K]
+open MethodRows
+
+/-- **Bells above the method ring as covers in the same last places of every row.**  In a tower that keeps its `N`
+bells (`Complete.Fixed N`; selections total, `Sel`), in every state of every run, while the method is being rung: the
+row being rung is the generator's current row followed by the opening row's tail - so everything behind the
+generator's row is, bell for bell and place for place, what the opening row put there, row after row, whatever is
+called, selected, assigned or set meanwhile.  (With `C01.every_row_is_complete` the whole is a complete row; with
+`gen_step_legal` the front part moves by adjacent swaps only.) -/
+theorem covers_ring_behind_the_method (N : Nat) (wt : K → K) (endTime : K) (fuel : Nat) (w : World K)
+    (events : List (K × Ev)) (hs : ∀ ev ∈ events, Covers.E N ev.2) (h : Covers.J N w.bot) :
+    InMethod (World.run wt endTime fuel w events).1.bot →
+      (World.run wt endTime fuel w events).1.bot.row =
+        (World.run wt endTime fuel w events).1.bot.gen.row ++
+          (World.run wt endTime fuel w events).1.bot.openingRow.drop (World.run wt endTime fuel w events).1.bot.gen.row.length :=
+  ((Covers.botInvariant N).run wt endTime fuel w events hs h).2.2
+
+/-- ... in particular the part of the row behind the generator's row never changes during the method. -/
+theorem covers_are_the_opening_rows (N : Nat) (wt : K → K) (endTime : K) (fuel : Nat) (w : World K)
+    (events : List (K × Ev)) (hs : ∀ ev ∈ events, Covers.E N ev.2) (h : Covers.J N w.bot)
+    (hm : InMethod (World.run wt endTime fuel w events).1.bot) :
+    (World.run wt endTime fuel w events).1.bot.row.drop (World.run wt endTime fuel w events).1.bot.gen.row.length =
+      (World.run wt endTime fuel w events).1.bot.openingRow.drop (World.run wt endTime fuel w events).1.bot.gen.row.length := by
+  rw [covers_ring_behind_the_method N wt endTime fuel w events hs h hm]
+  simp
+
+end System
 
 end Wheatley.C03
